@@ -7,6 +7,7 @@ import (
 	"time"
 
 	"github.com/cbeuw/Cloak/internal/server/usermanager"
+	"github.com/cbeuw/Cloak/internal/verifhook"
 
 	mux "github.com/cbeuw/Cloak/internal/multiplex"
 	log "github.com/sirupsen/logrus"
@@ -94,7 +95,9 @@ func (panel *userPanel) TerminateActiveUser(user *ActiveUser, reason string) {
 		"reason": reason,
 	}).Info("Terminating active user")
 	panel.updateUsageQueueForOne(user)
+	verifhook.At("panel.terminate.queued")
 	user.closeAllSessions(reason)
+	verifhook.At("panel.terminate.closed")
 	panel.activeUsersM.Lock()
 	delete(panel.activeUsers, user.arrUID)
 	panel.activeUsersM.Unlock()
@@ -117,6 +120,7 @@ type usagePair struct {
 // updateUsageQueue zeroes the accumulated usage all ActiveUsers valve and put the usage data im usageUpdateQueue
 func (panel *userPanel) updateUsageQueue() {
 	panel.activeUsersM.Lock()
+	verifhook.At("panel.update.lockedA")
 	panel.usageUpdateQueueM.Lock()
 	for _, user := range panel.activeUsers {
 		if user.bypass {
@@ -161,6 +165,7 @@ func (panel *userPanel) updateUsageQueueForOne(user *ActiveUser) {
 // and act to each user according to the responses
 func (panel *userPanel) commitUpdate() error {
 	panel.usageUpdateQueueM.Lock()
+	verifhook.At("panel.commit.lockedQ")
 	statuses := make([]usermanager.StatusUpdate, 0, len(panel.usageUpdateQueue))
 	for arrUID, usage := range panel.usageUpdateQueue {
 		panel.activeUsersM.RLock()
@@ -185,6 +190,7 @@ func (panel *userPanel) commitUpdate() error {
 	}
 	panel.usageUpdateQueue = make(map[[16]byte]*usagePair)
 	panel.usageUpdateQueueM.Unlock()
+	verifhook.At("panel.commit.collected")
 
 	if len(statuses) == 0 {
 		return nil
@@ -212,6 +218,7 @@ func (panel *userPanel) commitUpdate() error {
 func (panel *userPanel) regularQueueUpload() {
 	for {
 		time.Sleep(panel.uploadInterval)
+		verifhook.At("panel.upload.tick")
 		go func() {
 			panel.updateUsageQueue()
 			err := panel.commitUpdate()
